@@ -2876,7 +2876,7 @@ def groupby_reduce(
             # reindex=True was requested: it is only compatible with 'map-reduce'
             method = "map-reduce"
 
-        if method == "cohorts" and not chunks_cohorts:
+        if not chunks_cohorts and (method == "cohorts" or (user_method is None and method == "blockwise")):
             # none of the requested labels occurs in any block: there is nothing to split into cohorts
             method = "map-reduce"
 
